@@ -364,11 +364,11 @@ fn decode_outcome<K: TKey>(input: &[u8], tab: &mut Tab) -> (Value, Option<Enr<K>
         (r, buf.len())
     }));
     match r {
-        Err(_) => (json!({"kind": "panic", "rest": 0, "core": 0}), None),
-        Ok((Err(_), _)) => (json!({"kind": "err", "rest": 0, "core": 0}), None),
+        Err(_) => (json!({"kind": "panic", "rest": 0, "core": 0, "err": []}), None),
+        Ok((Err(x), _)) => (json!({"kind": "err", "rest": 0, "core": 0, "err": chars_json(&format!("{:?}", x))}), None),
         Ok((Ok(e), rest)) => {
             let idx = tab.put(core_obs(&e));
-            (json!({"kind": "ok", "rest": rest, "core": idx}), Some(e))
+            (json!({"kind": "ok", "rest": rest, "core": idx, "err": []}), Some(e))
         }
     }
 }
